@@ -9,6 +9,7 @@ import (
 
 	"github.com/vedadiyan/genql/compare"
 	"pgregory.net/rapid"
+	"verifharness/sq"
 )
 
 // C15 - value comparison is a coherent order across all numeric types and strings.
@@ -446,6 +447,13 @@ func genC15(t *rapid.T) any {
 		}
 	}
 	c.Join = rapid.IntRange(0, 3).Draw(t, "join") == 0
+	if c.Join && rapid.IntRange(0, 2).Draw(t, "textpair") == 0 {
+		// a number meets its own decimal text (equal in the stated order), on either side
+		i := rapid.IntRange(0, 1).Draw(t, "textpair.side")
+		if v, ok := c.Vals[i].goValue(); ok && c.Vals[i].T != "string" {
+			c.Vals[1-i] = TV{"string", c15Text(v)}
+		}
+	}
 	return c
 }
 
@@ -498,6 +506,50 @@ func checkC15(c *C15Case) Result {
 			if !out.OK() || len(out.Rows) != want {
 				res.Violation = fmt.Sprintf("%s over ta.k = %s, tb.k = %s\n  the order of the values says %d, so %d row(s) pair\n  got %s", sql, c15Desc(vals[0]), c15Desc(vals[1]), c15Expected(vals[0], vals[1]), want, out.Describe())
 				return res
+			}
+		}
+	}
+	if c.Join && c15Specified(vals[0], vals[1]) && !c15Wide(vals[1]) {
+		// the first value as a column, the second as a literal of an IN list among other literals of its kind:
+		// the row is kept exactly when the column equals one of the list's members in the stated order
+		var list []any
+		if _, isStr := vals[1].(string); isStr {
+			list = []any{"9", vals[1], "a", "100"}
+		} else if f, _ := c15Rat(vals[1]).Float64(); math.Abs(f) < 1e15 {
+			list = []any{9.0, f, 11.0, 100.0, 2.5}
+		}
+		ok := list != nil
+		want := 0
+		var lits []string
+		for _, e := range list {
+			if !c15Specified(vals[0], e) {
+				ok = false
+				break
+			}
+			if c15Expected(vals[0], e) == 0 {
+				want = 1
+			}
+			if s, isStr := e.(string); isStr {
+				lits = append(lits, sq.StrLit(s))
+			} else {
+				lits = append(lits, sq.NumLit(e.(float64)))
+			}
+		}
+		if ok {
+			res.Labels = append(res.Labels, "in-list")
+			for _, not := range []bool{false, true} {
+				sql := "SELECT k FROM ta WHERE k IN (" + strings.Join(lits, ", ") + ")"
+				n := want
+				if not {
+					sql = strings.Replace(sql, " IN (", " NOT IN (", 1)
+					n = 1 - want
+				}
+				out := Run(map[string]any{"ta": []any{map[string]any{"k": vals[0]}}}, sql, Opts{})
+				res.Execs++
+				if !out.OK() || len(out.Rows) != n {
+					res.Violation = fmt.Sprintf("%s over ta.k = %s\n  by the order of the values the row is kept %d time(s)\n  got %s", sql, c15Desc(vals[0]), n, out.Describe())
+					return res
+				}
 			}
 		}
 	}
